@@ -13,6 +13,6 @@ R=${VERIF_REPO:-/repo}
   echo
   echo "require github.com/metrico/qryn v0.0.0"
   echo "replace github.com/metrico/qryn => $R"
-} > $H/go.mod.new
-if ! cmp -s $H/go.mod.new $H/go.mod; then mv $H/go.mod.new $H/go.mod; else rm $H/go.mod.new; fi
-cmp -s $R/go.sum $H/go.sum || cp $R/go.sum $H/go.sum
+} > $H/go.mod.new.$$
+if ! cmp -s $H/go.mod.new.$$ $H/go.mod; then mv $H/go.mod.new.$$ $H/go.mod; else rm $H/go.mod.new.$$; fi
+cmp -s $R/go.sum $H/go.sum || { cp $R/go.sum $H/go.sum.$$ && mv $H/go.sum.$$ $H/go.sum; }
